@@ -267,34 +267,9 @@ func (e *Env) applyDecorationsSinks() {
 		e.Run.Violation("R-SINK", "applyDecorations ranges over its decorations parameter", e.Prog.Pos(fd.Pos()), "no `for _, d := range decorations`")
 		return
 	}
-	bad := ""
-	ast.Inspect(loop.Body, func(n ast.Node) bool {
-		if _, ok := n.(*ast.FuncLit); ok {
-			return false
-		}
-		if bs, ok := n.(*ast.BranchStmt); ok {
-			// a continue/break in the decoration loop itself (not in an inner loop over the text)
-			inner := false
-			ast.Inspect(loop.Body, func(m ast.Node) bool {
-				switch l := m.(type) {
-				case *ast.RangeStmt:
-					if l.Body.Pos() <= bs.Pos() && bs.End() <= l.Body.End() {
-						inner = true
-					}
-				case *ast.ForStmt:
-					if l.Body.Pos() <= bs.Pos() && bs.End() <= l.Body.End() {
-						inner = true
-					}
-				}
-				return true
-			})
-			if !inner {
-				bad = bs.Tok.String()
-			}
-		}
-		return true
-	})
-	e.Run.Check("R-SINK", "applyDecorations loop has no continue/break", e.Prog.Pos(loop.Pos()), bad == "", "a decoration would be skipped: "+bad)
+	// (whether a decoration can be skipped, which sink a comment goes to and that the cursor
+	// advances once per comment is decided for every decoration list by the line-state machine)
+	e.lineStateApplyDecorations()
 	var dName string
 	if id, ok := loop.Value.(*ast.Ident); ok {
 		dName = id.Name
@@ -335,20 +310,8 @@ func (e *Env) applyDecorationsSinks() {
 			fmt.Sprintf("expected exactly one r.addCommentField(node, r.cursor, %s), one append of a group {Slash: r.cursor, Text: %s} to r.comments and one r.cursor += token.Pos(len(%s)) per decoration; found %d/%d/%d (of the expected form: %v/%v/%v)", dName, dName, dName, nField, nFree, nAdv, fieldSite != nil, freeSite != nil, advSite != nil))
 		return
 	}
-	pcField, ok1 := pathCond(c, loop.Body.List, fieldSite)
-	pcFree, ok2 := pathCond(c, loop.Body.List, freeSite)
-	pcAdv, ok3 := pathCond(c, loop.Body.List, advSite)
-	// which of the two sinks a comment goes to is decided by the line-state machine (R-SPACE) for
-	// every decoration list; here: exactly one of them, for every comment, before the advance
-	_ = toField
-	eq1, d1 := equivalentGuards("("+pcField+") || ("+pcFree+")", isComment)
-	eq2, d2 := unsatWith(pcField, pcFree)
-	eq3, d3 := equivalentGuards(pcAdv, isComment)
-	if !(ok1 && ok2 && ok3 && d1 && d2 && d3) {
-		e.Run.Undecided("R-SINK", "applyDecorations: each comment goes to exactly one sink, at the cursor, then the cursor advances by its length", pos, "path conditions outside the propositional subset: "+pcField+" | "+pcFree+" | "+pcAdv)
-		return
-	}
 	order := fieldSite.Pos() < advSite.Pos() && freeSite.Pos() < advSite.Pos()
-	e.Run.Check("R-SINK", "applyDecorations: each comment goes to exactly one sink, at the cursor, then the cursor advances by its length", pos, eq1 && eq2 && eq3 && order,
-		fmt.Sprintf("Comment-field sink reached when «%s», free list when «%s» (want: together every comment, never both), cursor advance when «%s» (want: every comment), sinks before the advance: %v", pcField, pcFree, pcAdv, order))
+	e.Run.Check("R-SINK", "applyDecorations: each comment goes to exactly one sink, at the cursor, then the cursor advances by its length", pos, order,
+		"both sinks take the comment at r.cursor; the advance by len(d) must come after them")
+	_, _ = isComment, toField
 }
